@@ -149,8 +149,8 @@ pub fn run(tape: &[u8], cx: &Cx) -> Outcome {
                 }
             }
             Ok(None) => {
-                o.fail("C02/try_compile-none", format!("try_compile(r{}, {}) = None although the expression has {} derivatives", slot, n + 3, n));
-                return o;
+                // when try_compile gives up is C19's subject (C02 speaks about the automaton "when it returns Some")
+                o.tag("try_compile-returned-none");
             }
             Err(msg) => {
                 o.fail("C02/compile-panics", format!("try_compile(r{}) panicked: {}", slot, msg));
